@@ -194,3 +194,18 @@ def cycle {V} (cond : Tag → Bool) (body : Tag → V) : Nat → Counters → Ta
                 | none => [])
 
 end SFV.Loop
+
+namespace SFV.Loop
+
+/-! ### provenance recorded by `LoopOutputStep.run` (`input_token_ids = get_entity_ids(self.token_map.get(prefix))`) -/
+
+/-- provenance of the outputs emitted by one more token: the body outputs collected for the instance, in arrival order -/
+def provOfStep {V} (m : Method) (s : St V) (e : Ev V) : List (Tag × List (Tok V)) :=
+  let s' := step m s e
+  (s'.out.drop s.out.length).map (fun o => (o.tag, s'.toks o.tag))
+
+def runProv {V} (m : Method) : St V → List (Ev V) → List (Tag × List (Tok V))
+  | _, [] => []
+  | s, e :: es => provOfStep m s e ++ runProv m (step m s e) es
+
+end SFV.Loop
